@@ -63,6 +63,19 @@ class Ctx:
         self.assumptions: List[str] = []
         self.extra: Dict[str, Any] = {}
         self.errors: List[str] = []
+        self._alias = None  # rule-id rewriting while a rule of another property is run on behalf of this one
+
+    def _r(self, rule: str) -> str:
+        return self._alias(rule) if self._alias else rule
+
+    def guard_as(self, alias, rule_fn, *args, **kw):
+        """run a rule module of another property as a clause of this one; its obligations are reported under `alias(rule)`"""
+        prev = self._alias
+        self._alias = alias if callable(alias) else (lambda r, _a=alias: f"{_a}[{r}]")
+        try:
+            return self.guard(rule_fn, *args, **kw)
+        finally:
+            self._alias = prev
 
     def guard(self, rule_fn, *args, **kw):
         """run one rule; an AnalysisError in it is recorded (exit 2 unless a violation is found elsewhere)
@@ -75,7 +88,7 @@ class Ctx:
 
     # -- obligations -------------------------------------------------------------------------------------
     def ok(self, rule: str, instance: str, detail: str = "", nontrivial: bool = True) -> None:
-        self.obligations.append(Obligation(rule, instance, True, nontrivial, detail))
+        self.obligations.append(Obligation(self._r(rule), instance, True, nontrivial, detail))
 
     def fail(self, rule: str, fn: Optional[FunctionInfo], node: Optional[ast.AST], message: str,
              construct: Optional[str] = None, **detail: Any) -> None:
@@ -84,6 +97,7 @@ class Ctx:
         if len(cons) > 200:
             cons = cons[:200]
         loc = fn.loc(node) if fn is not None else ""
+        rule = self._r(rule)
         f = Finding(self.prop, rule, fshort, cons, message, loc, detail)
         if any(x.key == f.key for x in self.findings):
             return
@@ -108,6 +122,7 @@ class Ctx:
 
     def count(self, rule: str, found: int, minimum: int, what: str = "") -> None:
         """instance minimum confirmed by hand: fewer instances => the rule would pass vacuously => exit 2"""
+        rule = self._r(rule)
         self.instances[rule] = {"found": found, "min": minimum}
         if found < minimum:
             raise AnalysisError(f"{self.prop} {rule}: only {found} instance(s) of {what or 'the rule'} found, "
